@@ -139,3 +139,48 @@ pub fn h_set_from_array<T: Shape, const N: usize>() {
     assert!(post.wf(), "C16.Set::From<[_;N]>: well-formed");
     kani::cover!(true, "reached");
 }
+
+/// C06 at a large element size.  The allocator analysis runs on the program of each unit, and a
+/// size-threshold specialisation (`if size_of::<Self>() > 4096 { Box::new(..) }`) is a constant-false
+/// branch for the small shapes - rustc removes it before the verifier sees it.  This unit instantiates
+/// every bulk/whole-container operation with a container of more than 8 KiB (one element of 8200 bytes,
+/// compared on its first byte), so such a branch is live in the analysed program.
+#[derive(Clone, Copy)]
+pub struct Big {
+    pub id: u8,
+    pub pad: [u8; 8199],
+}
+impl PartialEq for Big {
+    fn eq(&self, o: &Self) -> bool {
+        self.id == o.id
+    }
+}
+impl core::fmt::Debug for Big {
+    fn fmt(&self, f: &mut core::fmt::Formatter<'_>) -> core::fmt::Result {
+        f.write_str("B")
+    }
+}
+
+pub fn h_big_whole<const N: usize>() {
+    let id: u8 = kani::any();
+    let b = Big { id, pad: [0; 8199] };
+    let s: Set<Big, N> = [b; N].into_iter().collect();
+    assert!(s.len() == 1 && s.contains(&b), "C16.from_iter: a large element type behaves like any other");
+    let s2: Set<Big, N> = Set::from([b; N]);
+    let mut s3: Set<Big, N> = Set::new();
+    s3.extend([b; N]);
+    assert!(s2.len() == 1 && s3.len() == 1);
+    let m: Map<Big, Big, N> = [(b, b); N].into_iter().collect();
+    let m2: Map<Big, Big, N> = Map::from([(b, b); N]);
+    assert!(m.len() == 1 && m2.len() == 1 && m.get(&b).is_some());
+    let c = m.clone();
+    let cs = s.clone();
+    assert!(c.len() == 1 && cs.len() == 1 && c == m && cs == s);
+    let d: Set<Big, N> = &s - &s2;
+    assert!(d.is_empty());
+    let mut mm = m;
+    mm.retain(|_, _| false);
+    let n = mm.drain().count() + c.into_iter().count() + cs.into_iter().count();
+    assert!(n == 2);
+    kani::cover!(true, "reached");
+}
